@@ -13,10 +13,16 @@
    local time type records, designation characters, then the footer) yields exactly the transitions and types that were
    laid out, with the footer handed to the POSIX TZ string parser; i.e. header and block arithmetic and the big-endian
    integer decoding are proved.
+   Footer (TzFooter.v): C18_footer - the POSIX TZ string parser applied to the canonical printing of a rule (STD, offset as
+   [-]h:mm:ss, DST, offset, and the two switch-over rules Jn | n | Mm.w.d each followed by /[-]h:mm:ss, between two line
+   feeds) returns exactly that rule, for every rule within the grammar's ranges (offsets up to 24 h, rule times up to 24 h,
+   or 167 h in a version-3 file); C18_file composes it with the layout theorem: the reader applied to the whole encoded
+   file returns the transitions, types and rule that were encoded.
    NOT PROVED here (checked by the differential run against TzSpec on synthesized files and against CPython's zoneinfo on
-   real files): the POSIX TZ string grammar of the footer (that from_tz_string of a printed rule yields that rule), version-1
-   files (32-bit block), non-empty leap-second / indicator sections.  Named *_partial for that reason. *)
-From Astro Require Import Base Text CalSpec DateModel TimeModel ApiModel InstantSpec TzModel TzSpec DateProofs TzProofs TzCodec.
+   real files): the abbreviated spellings of the footer grammar (omitted minutes/seconds, omitted DST offset and /time,
+   quoted <...> designations, a leading +), version-1 files (32-bit block), non-empty leap-second / indicator sections.
+   The lookup and decode theorems keep the name *_partial for that reason. *)
+From Astro Require Import Base Text CalSpec DateModel TimeModel ApiModel InstantSpec TzModel TzSpec DateProofs TzProofs TzCodec TzFooter.
 
 Theorem C18_lookup_partial : forall tz t, tz_wf tz -> sorted_trans (tz_trans tz) -> ts_in_range t ->
   MIN_Y + 1 <= utc_year year_of t <= MAX_Y - 1 ->
@@ -32,6 +38,22 @@ Theorem C18_decode_partial : forall v trans types chars footer, v <> V1 ->
       || ((match types with [] => true | _ => false end) && (match rule with None => true | _ => false end))
    then TzErr else TzOk (mkTz trans types rule)).
 Proof. exact from_tzif_encoded. Qed.
+
+Theorem C18_footer : forall (ext : bool) r, footer_ok ext r -> from_tz_string (footer_of r) ext = TzOk (Some r).
+Proof. exact from_tz_string_footer. Qed.
+Theorem C18_file : forall v trans types chars r, v <> V1 ->
+  Forall (fun tr => in_i64 (fst tr)) trans -> Forall in_i32 types ->
+  u32ok (Z.of_nat (length trans)) -> u32ok (Z.of_nat (length types)) -> u32ok (Z.of_nat (length chars)) ->
+  footer_ok (match v with V3 => true | _ => false end) r ->
+  existsb (fun tr => Z.of_nat (length types) <=? snd tr) trans = false ->
+  from_tzif (enc_file v trans types chars (footer_of r)) = TzOk (mkTz trans types (Some r)).
+Proof. exact from_tzif_file. Qed.
+Example C18_footer_nonvacuous :
+  let r := RAlt (mkAlt 3600 (MonthWeekDay 3 5 0) 7200 7200 (MonthWeekDay 10 5 0) 10800) in
+  and (footer_ok false r)
+  (footer_of r = [10; 83;84;68; 45;49;58;48;48;58;48;48; 68;83;84; 45;50;58;48;48;58;48;48; 44; 77;51;46;53;46;48; 47; 50;58;48;48;58;48;48;
+                 44; 77;49;48;46;53;46;48; 47; 51;58;48;48;58;48;48; 10]).
+Proof. exact footer_europe. Qed.
 
 Theorem C18_scan : forall l t, sorted_trans l -> scan_rev (rev l) t = latest_type l t 0.
 Proof. exact scan_is_latest. Qed.
@@ -72,6 +94,8 @@ Proof. cbv zeta. repeat split; vm_compute; reflexivity. Qed.
 
 Print Assumptions C18_lookup_partial.
 Print Assumptions C18_decode_partial.
+Print Assumptions C18_footer.
+Print Assumptions C18_file.
 Print Assumptions C18_scan.
 Print Assumptions C18_rule_date_J.
 Print Assumptions C18_rule_date_N.
